@@ -358,7 +358,32 @@ func c15Password(p *chk.Prog, r *chk.Report) {
 			n++
 			emptyRef := pf.MatchNew("v1.SecretReference{}", rr[1]) != nil
 			if emptyRef {
-				x.OK("passwordForSession:return#"+itoa(n)+":no-secret-ref", rt.Pos(), "")
+				// without a reference the password is the effective plain-text one: the secret's content when the
+				// peer has one, else spec.password (or nothing for an unknown back end)
+				okPw := pf.IsConstString(rr[0], "")
+				if id, isId := ast.Unparen(rr[0]).(*ast.Ident); isId && !okPw {
+					o := pf.ObjOf(id)
+					nPlain, nSecret, other := 0, 0, 0
+					for _, a := range assignsTo(pf, o) {
+						as, isAs := a.(*ast.AssignStmt)
+						if !isAs || len(as.Rhs) != 1 {
+							other++
+							continue
+						}
+						sites := g.Find(func(m ast.Node) bool { return m == ast.Node(as) })
+						switch {
+						case pf.MatchWith("C.Password", as.Rhs[0], chk.H("C", cfg)) != nil:
+							nPlain++
+						case pf.MatchWith("C.SecretPassword", as.Rhs[0], chk.H("C", cfg)) != nil && len(sites) == 1 &&
+							g.Dominated(sites[0], g.GPat(true, `C.SecretPassword != ""`, chk.H("C", cfg))):
+							nSecret++
+						default:
+							other++
+						}
+					}
+					okPw = nPlain == 1 && nSecret == 1 && other == 0
+				}
+				x.Check("passwordForSession:return#"+itoa(n)+":no-secret-ref", rt.Pos(), okPw, "", "a back end that gets no secret reference is not given the effective plain-text password (spec.password, or the secret's content when the peer uses a secret): the session is configured without / with the wrong password")
 				continue
 			}
 			ok := pf.MatchWith("C.PasswordRef", rr[1], chk.H("C", cfg)) != nil && pf.MatchWith("C.Password", rr[0], chk.H("C", cfg)) != nil &&
